@@ -1,10 +1,26 @@
 (* C08 -- Size/Count is exact whenever no modification is in flight.
-   Cache level (sequential histories).  Map level: props/C11.v (Size = length of the
-   abstract map after every call); interleaved: props/C08c.v. *)
+   C08_count_laws / C08_map_size: sequential histories (cache level; table level).
+   C08_counter_invariant / C08_quiescent_exact: EVERY schedule of the concurrent
+   machine XMachine (internal/xsync/mapof.go, step by step -- the machine that
+   CORR-sched replays against the real code): in every reachable state and for
+   every table ever created
+        visible entries = sum of the counter stripes + additions still owed,
+   a writer owing +1 from the store that makes its insert visible to its
+   addSize(+1) (which comes after the unlock) and -1 from the meta store of its
+   delete to its addSize(-1); the copy of a resize adds to the new table's counter
+   exactly the entries it places there, whatever writers do meanwhile on the
+   buckets not yet copied; a Clear installs a zero table.  Hence at every point
+   where no modifying call is in flight a Size call returns exactly the number
+   of pairs of the current table -- a duplicate-free enumeration of what lock-free
+   readers can find there, which is what a Range visits.
+   Not proved for the concurrent Map machine XMachineS (map.go; same protocol,
+   replayed against the code by CORR-sched, counter steps included). *)
 From CacheV Require Import Base SpecMap Client CacheModel CacheOfModel Ops SpecTTL.
 From CacheV Require Import TableModel.
 From CacheV.proofs Require Import C06_hist C08_cache C11_lists C11_table.
 From Coq Require Import NArith.
+From CacheV Require Import XMachine.
+From CacheV.proofs Require Import X_lin X_count.
 
 (* After any history: Count is the number of keys physically present (live entries
    plus expired entries not yet cleaned); it never under-reports the live entries;
@@ -47,3 +63,55 @@ Proof.
   - exists (abs nslots m). split; [reflexivity | apply (meq_length eqd); exact Hq].
 Qed.
 Print Assumptions C08_map_size.
+
+(* ---------------- every schedule (MapOf machine) ---------------- *)
+
+Theorem C08_counter_invariant :
+  forall (K V : Type) (eqd : forall a b : K, {a = b} + {a <> b})
+         (hash : K -> N -> N) (idx : N -> nat -> nat) (tag : N -> N) (nslots : nat) (seeds : nat -> N)
+         (grow_needed shrink_policy : nat -> Z -> bool) (probe : list (option N) -> N -> list nat)
+         (nstripes : nat -> nat) (minlen : nat) (grow_only : bool),
+    xhyps4 idx nstripes minlen nslots probe ->
+    forall len0 todo sched, (0 < len0)%nat ->
+    let s := fst (@xrun K V eqd hash idx tag nslots seeds grow_needed shrink_policy probe nstripes minlen grow_only
+                         (xinit nslots seeds nstripes len0 todo) sched) in
+    forall tab, (tab < length (g_tabs s))%nat ->
+      tcount (tab_at nslots nstripes s tab)
+      = (sum_z (x_size (tab_at nslots nstripes s tab)) + owed_all s tab (nodup Nat.eq_dec sched))%Z.
+Proof. exact @reachable_count_proof. Qed.
+Print Assumptions C08_counter_invariant.
+
+Theorem C08_quiescent_exact :
+  forall (K V : Type) (eqd : forall a b : K, {a = b} + {a <> b})
+         (hash : K -> N -> N) (idx : N -> nat -> nat) (tag : N -> N) (nslots : nat) (seeds : nat -> N)
+         (grow_needed shrink_policy : nat -> Z -> bool) (probe : list (option N) -> N -> list nat)
+         (nstripes : nat -> nat) (minlen : nat) (grow_only : bool),
+    xhyps4 idx nstripes minlen nslots probe ->
+    forall len0 todo sched t rest, (0 < len0)%nat ->
+    let xr := @xrun K V eqd hash idx tag nslots seeds grow_needed shrink_policy probe nstripes minlen grow_only in
+    let s := fst (xr (xinit nslots seeds nstripes len0 todo) sched) in
+    (* nobody is inside a modifying call; t is idle and its next call is Size *)
+    (forall u, modifying (g_pc s u) = false) -> g_pc s t = PIdle -> g_todo s t = XSize :: rest ->
+    let l := tpairs (tab_at nslots nstripes s (g_cur s)) in
+    let r := xr s (repeat t (S (nstr (tab_at nslots nstripes s (g_cur s))))) in
+    In (XRes t (XRNat (Z.of_nat (length l)))) (snd r)
+    /\ (forall k v, In (k, v) l <-> X_lin.vis hash idx (tab_at nslots nstripes s (g_cur s)) k v) /\ NoDup (map fst l)
+    /\ g_pc (fst r) t = PIdle /\ g_tabs (fst r) = g_tabs s /\ g_cur (fst r) = g_cur s.
+Proof. exact @quiescent_size_exact_proof. Qed.
+Print Assumptions C08_quiescent_exact.
+
+(* non-vacuity: two threads insert colliding keys, a third will call Size; after a
+   round-robin schedule the writers are done and the third thread is idle before its call *)
+Definition ex_run08 : @xstate nat nat :=
+  fst (@xrun nat nat Nat.eq_dec (fun _ _ => 5%N) (fun h len => (N.to_nat h mod len)%nat) (fun h => h) 2%nat (fun _ => 0%N)
+             (fun _ _ => false) (fun _ _ => false) (fun tags tg => filter (fun i => match nth i tags None with Some t => N.eqb t tg | None => false end) (seq 0%nat (length tags)))
+             (fun _ => 1%nat) 1%nat false
+             (xinit 2%nat (fun _ => 0%N) (fun _ => 1%nat) 1%nat
+                    (fun t => if Nat.eqb t 0%nat then [XCompute 7%nat (fun _ => Some 1%nat) false false false]
+                              else if Nat.eqb t 1%nat then [XCompute 8%nat (fun _ => Some 2%nat) false false false] else if Nat.eqb t 2%nat then [XSize] else []))
+             (concat (repeat [0; 1]%nat 16%nat) ++ [2]%nat)).
+Example C08_nonvacuous :
+  g_pc ex_run08 2%nat = PIdle /\ g_todo ex_run08 2%nat = [XSize] /\ modifying (g_pc ex_run08 0%nat) = false /\ modifying (g_pc ex_run08 1%nat) = false
+  /\ length (tpairs (tab_at 2%nat (fun _ => 1%nat) ex_run08 (g_cur ex_run08))) = 2%nat.
+Proof. vm_compute. repeat split; reflexivity. Qed.
+Print Assumptions C08_nonvacuous.
